@@ -2,6 +2,7 @@ package rdb
 
 import (
 	"bytes"
+	"errors"
 	"fmt"
 	"hash"
 	"io"
@@ -64,6 +65,21 @@ func (l *Loader) Footer() error {
 		return fmt.Errorf("checksum validation error : expect(%d), actual(%d)", crc2, crc1)
 	}
 	return nil
+}
+
+// End reports an error unless the input is exhausted: nothing follows the
+// footer of a snapshot. Without this, an EOF opcode read at a wrong position
+// (damaged length field) followed by eight zero bytes would pass as the end of
+// a snapshot with its checksum disabled.
+func (l *Loader) End() error {
+	_, err := l.ReadByte()
+	if err == nil {
+		return fmt.Errorf("unexpected data after the rdb footer")
+	}
+	if errors.Is(err, io.EOF) {
+		return nil
+	}
+	return err
 }
 
 type BinEntry struct {
